@@ -105,6 +105,14 @@ func init() {
 				sib.EnvSet, sib.EnvVal = true, "sibenv"
 			}
 			p := &Prog{Mode: r.Intn(3), Unknown: 0, Root: &Cmd{Unknown: -1, HasFn: true, Opts: []*Opt{o, sib}}}
+			// the command line may end in a command: an ordinary one (inherits the options), a wrapper (UnsetOptions)
+			// or the built-in help command; what the program reads through the root object must not depend on that
+			ending := ""
+			if hostile {
+				p.Root.Cmds = []*Cmd{{Name: "sub", Unknown: -1, HasFn: true}, {Name: "wrap", Unknown: 2, HasFn: true, Unset: true}}
+				p.Help = "help"
+				ending = []string{"", "", "sub", "wrap", "help"}[r.Intn(5)]
+			}
 			cliVal := c12ValidText(r, kind, hostile)
 			if kind == KBool {
 				// bools take no value on the command line (C01): attached/detached collapse to the flag
@@ -161,12 +169,14 @@ func init() {
 			case "bare":
 				argv = append(argv, "--"+key)
 			}
-			if r.Bool() && !(cliC == "bare" && kind != KBool) { // a plain token behind a bare optional-value option would be its value
+			if ending != "" && !(cliC == "bare" && kind != KBool) {
+				argv = append(argv, ending)
+			} else if r.Bool() && !(cliC == "bare" && kind != KBool) { // a plain token behind a bare optional-value option would be its value
 				argv = append(argv, "pos1")
 			}
 			oc := Run(p, argv, false)
 			doc := &CaseDoc{Prog: p, Argv: argv, Note: fmt.Sprintf("kind=%s env=%s(%q) cli=%s default=%s", kind, envC, o.EnvVal, cliC, defText(o))}
-			res := &fw.Result{Execs: 1, Events: 3, Sample: doc, Cells: []string{fmt.Sprintf("%s|env=%s|cli=%s", kind, envC, cliC)}}
+			res := &fw.Result{Execs: 1, Events: 3, Sample: doc, Cells: []string{fmt.Sprintf("%s|env=%s|cli=%s", kind, envC, cliC), "ends_in_command=" + ending}}
 			fail := func(m string) *fw.Result { doc.Got = oc; return viol("precedence table", []string{m}, doc) }
 			if oc.Panic != "" {
 				return fail("panic: " + oc.Panic)
